@@ -108,11 +108,15 @@ def kernel_runs(col, rng, tier):
             ep = EpochConfig(etype, dur, 1, None).to_state(ei + 1, tbe)
             ks = k.start_epoch(key, ks, ms, ep)
             ref.restart(float(ks.step_size))
+            if not (float(ks.error_sum) == 0.0 and close(ks.log_avg_step_size, ref.log_eps_bar) and close(ks.mu, ref.mu)):
+                bad = bad or f"{etype.name}: dual averaging not restarted from the current step size at the start of the epoch"
+            hist_x = []
             for t in range(dur):
                 key, sub = jax.random.split(key)
                 before = {n: np.asarray(v) for n, v in ks.__dict__.items()}
                 out = trans(sub, ks, ms, ep)
                 ks, ms = out.kernel_state, out.model_state
+                hist_x.append(np.asarray(ms["x"]))
                 if EpochType.is_adaptation(etype):
                     ref.step(float(out.info.acceptance_prob))
                     if not (close(ks.step_size, ref.eps) and close(ks.log_avg_step_size, ref.log_eps_bar)):
@@ -122,11 +126,16 @@ def kernel_runs(col, rng, tier):
                         if not np.array_equal(np.asarray(v), before[n]):
                             bad = bad or f"{etype.name}: tuning state field {n} changed during a non-adaptive transition"
                 ep.advance_time(1)
+            step_at_start = ref.eps if not EpochType.is_adaptation(etype) else None
             ks = k.end_epoch(key, ks, ms, ep)
             if EpochType.is_adaptation(etype):
                 ref.finalize()
                 if not close(ks.step_size, ref.eps):
                     bad = bad or f"{etype.name}: end-of-epoch step size {float(ks.step_size)} vs exp(log epsbar) {ref.eps}"
+                # tuning after the epoch (mass matrix for HMC/NUTS rescales the step size)
+                ks = k.tune(key, ks, ms, ep, {"x": jnp.asarray(np.stack(hist_x)) * jnp.array([1.0, 7.0])}).kernel_state
+            elif not close(ks.step_size, step_at_start):
+                bad = bad or f"{etype.name}: step size changed over a non-adaptation epoch ({step_at_start} -> {float(ks.step_size)})"
             tbe += dur
         col.add({"sig": f"native::da::kernel::{kind}", "what": f"{kind}: {bad}", "input": {"kernel": kind, "transitions_per_adaptation_epoch": n_tr}} if bad else None)
 
